@@ -5,6 +5,7 @@
 package rtp
 
 import (
+	"fmt"
 	"time"
 
 	"github.com/cnotch/ipchub/av/codec"
@@ -84,7 +85,7 @@ func (h265dp *h265Depacketizer) depacketizeStap(packet *Packet) (err error) {
 	off := 2 // 跳过 STAP NAL HDR
 
 	// 循环读取被封装的NAL
-	for {
+	for off+2 < len(payload) { // 至少还有长度字段和 1 字节 NAL
 		// nal长度
 		nalSize := ((uint16(payload[off])) << 8) | uint16(payload[off+1])
 		if nalSize < 1 {
@@ -92,6 +93,9 @@ func (h265dp *h265Depacketizer) depacketizeStap(packet *Packet) (err error) {
 		}
 
 		off += 2
+		if off+int(nalSize) > len(payload) {
+			return fmt.Errorf("ap: nal size %d exceeds payload", nalSize)
+		}
 		frame := &codec.Frame{
 			MediaType: codec.MediaTypeVideo,
 			Payload:   make([]byte, nalSize),
